@@ -48,14 +48,16 @@ def run_replay(code, raises_is_violation=False, timeout=180):
 
 
 MAX_REPLAYS = int(os.environ.get("PYVC_MAX_REPLAYS", "6"))
-_n_replays = [0]
+_n_replays = {}
 
 
-def attach(ob, code, raises_is_violation=False):
+def attach(ob, code, raises_is_violation=False, bucket="default"):
     """Run the replay for a failed obligation and attach the outcome (at most MAX_REPLAYS per run: a broken
     table or constructor fails thousands of sibling obligations, replaying each would take hours)."""
-    _n_replays[0] += 1
-    if _n_replays[0] > MAX_REPLAYS:
+    # separate budgets per producer (Mode Q table obligations / Mode S obligations / ...), so that the replays of recorded
+    # known findings do not use up the budget of an unrelated new failure
+    _n_replays[bucket] = _n_replays.get(bucket, 0) + 1
+    if _n_replays[bucket] > MAX_REPLAYS:
         ob.replay = dict(code=code, raises_is_violation=raises_is_violation, confirmed=False,
                          outcome=dict(skipped="replay budget of {} per run exhausted; run ./check <id> --replay <file>".format(MAX_REPLAYS)))
         return ob
